@@ -96,7 +96,10 @@ impl Clone for SimCallback {
 impl OnEvictCallback for SimCallback {
     fn on_evict<K2, V2>(&self, key: &K2, val: &V2) {
         world::user_call(CallKind::Callback);
-        crate::alloc::harness_scope(|| self.record(key, val))
+        crate::alloc::harness_scope(|| self.record(key, val));
+        if world::cb_panic_due() && !std::thread::panicking() {
+            std::panic::panic_any(world::SoftCbPanic);
+        }
     }
 }
 impl SimCallback {
